@@ -827,6 +827,38 @@ def rule_sibling(F, ev, R, config, rule="R-SIBLING"):
             ok = set(map(repr, ws)) == set(map(repr, wp))
             R.add(rule, config, bp.key, "set_params-sinks-equal", ok,
                   "" if ok else "the cache values written by the parallel set_params differ from the sequential ones", bp.j["span"])
+            # … and they are stored under the same conditions: the guard formulas (logic.py; early returns, `?`, combinator
+            # chains and `if let` tuples coincide) of the present-cache writes agree conjunct by conjunct
+            import logic
+            from rules_panic import nosite
+            L = logic.Logic(ev)
+
+            def presence(bb):
+                out = set()
+                for (bi, si, k, v, st) in rules_err.cache_writes(F, ev, bb, pr):
+                    if k != "some":
+                        continue
+                    # a value that is one alternative of a join (the Some(..) of a spliced-in helper with early
+                    # returns): the conditions are those of the block that constructs it
+                    env0 = Env(bb)
+                    origins = [b2 for b2, s2, st2 in bb.stmts() if st2["k"] == "assign" and st2["rv"]["k"] == "agg"
+                               and st2["rv"].get("variant") == "Some" and b2 != bi
+                               and repr(nosite(ev.rvalue(env0, st2["rv"], (b2, s2)))) == repr(nosite(v))]
+                    at = origins[0] if len(origins) == 1 else bi
+                    fs = L.conditions_at(bb, env0, at) + ([L.of_option(v, True)] if v is not None and v[0] in ("opt", "phi") else [])
+                    stack = list(fs)
+                    while stack:
+                        f = stack.pop()
+                        if f[0] == "and":
+                            stack.extend(f[1])
+                        elif f[0] != "true":
+                            out.add(repr(canon(f)))
+                return out
+            cs, cp = presence(bs), presence(bp)
+            okc = cs == cp
+            R.add(rule, config, bp.key, "set_params-conditions-equal", okc,
+                  "" if okc else "the parallel set_params stores a present cache under different conditions than the sequential one: only-seq %s / only-par %s" % (
+                      [x[:160] for x in sorted(cs - cp)][:2], [x[:160] for x in sorted(cp - cs)][:2]), bp.j["span"])
             # same control skeleton: number of cache writes by kind
             continue
         ev.fresh_ctx()
@@ -851,7 +883,7 @@ def rule_sibling(F, ev, R, config, rule="R-SIBLING"):
                           effects_signature(effs_s, cns, vs_, True), effects_signature(effs_p, cnp, vp_, True)), bp.j["span"])
             except AnchorMissing as ex:
                 R.bad(rule, config, bp.key, "column-closure-effects-equal", "%s (undetermined)" % ex, bp.j["span"])
-    R.floor(rule, config, 5, "4 methods + column closure")
+    R.floor(rule, config, 6, "4 methods + conditions + column closure")
 
 
 def effects_signature(effs, cn, val, pretty=False):
